@@ -733,7 +733,7 @@ func Run(c *hx.Ctx) {
 	for _, h := range fixedHistories() {
 		runHist(c, h, true)
 	}
-	n := c.N(220, 2200)
+	n := c.N(200, 2400)
 	for i := 0; i < n; i++ {
 		runHist(c, genHist(c, i), false)
 	}
